@@ -177,6 +177,9 @@ impl<C: CrcCalculator> Encapsulator<C> {
         self.re_use_activated = false;
         self.re_max_consecutive = 0;
         self.re_current_consecutive = 0;
+        // the labels sent while the re-use is disabled are not tracked:
+        // forget the last one, it may be outdated when the re-use is enabled again
+        self.last_label = None;
     }
 
     pub fn enable_re_use_label(&mut self) {
